@@ -627,6 +627,17 @@ def obj_getattr(ip, obj, name):
   h = obj.attrs.get("__getattr__")
   if h is not None:
     return h(ip, obj, name)
+  if "__base_kwargs__" in obj.attrs and name == "add_weight":
+    # K1: Layer.add_weight creates a variable named after its `name` argument
+    return Builtin("add_weight", lambda ip_, *a, **k: Term("weight", (k.get("name", a[0] if a else None),)))
+  if "__base_kwargs__" in obj.attrs and name in ("build", "set_weights"):
+    # Keras base-class methods of a library layer object (K1): recorded, no other effect
+    def rec(ip_, *a, _n=name, **k):
+      calls = list(obj.attrs.get("__calls__", []))
+      calls.append((_n, a))
+      ip_.setattr(obj, "__calls__", calls)
+      return None
+    return Builtin(name, rec)
   if name in EXT_ATTR_DEFAULTS and "__base_kwargs__" in obj.attrs:
     # attribute that the external (Keras) base class sets from its own default when the subclass does not pass it
     return EXT_ATTR_DEFAULTS[name]
